@@ -20,6 +20,74 @@ CHECKS = {
             'vf.ref.varint is trusted (self-tested on the protocol examples); '
             'step budget 20000 line events stands for non-termination.',
             'DESIGN.md §3 C03'),
+    'C02': ('exploration',
+            'runtime monitor: recording sink + counting stream + step budget '
+            'around the real codecs; independent wire-type oracle; prefix rule',
+            'Every wire type of the library (incl. instance-based fixed point '
+            'and nested PrefixedArray with context-aware elements) is run on '
+            'exhaustive 8/16-bit domains, boundary sets and seeded random '
+            'values; bytes are compared with an independent encoder, decoding '
+            'of reference bytes with value and cursor, and every strict prefix '
+            'must raise. Held = held on those executions.',
+            'vf.ref.wiretypes trusted (bit-level IEEE-754, cross-checked with '
+            'struct in setup); one-quantum tolerance for Angle/FixedPoint.',
+            'DESIGN.md §3 C02'),
+    'C04': ('exploration',
+            'runtime monitor: observed layout trace over all known versions; '
+            'independent 26/12/26 packing oracle',
+            'Real Position/ChunkSectionPos/Record codecs run for all 369 known '
+            'versions x boundary products, single-bit words and random triples;'
+            ' the layout each version uses is observed and the trace along the '
+            'version list must switch exactly once between 404 and 477.',
+            'vf.ref.wiretypes.pack_position validated on the documented '
+            'example word; version order taken from the tree (C08 checks it).',
+            'DESIGN.md §3 C04'),
+    'C06': ('exploration',
+            'complete enumeration by calling the real get_packets/get_id and '
+            'building the real reactor dicts; counting oracle',
+            'Exhaustive over 250 supported versions x 4 states x 2 directions: '
+            'totality, non-negativity, injectivity, and reactor dict size/'
+            'consistency. Nine collisions on supported snapshots are recorded '
+            'known findings (keyed by direction/state/version/id/classes); any'
+            ' other is a violation.',
+            'supported-version list is read from the tree.',
+            'DESIGN.md §3 C06'),
+    'C08': ('exploration',
+            'runtime monitor: all pairs through the real predicates vs. an '
+            'independent recomputation; generated extension histories',
+            'All ordered pairs of known versions x 6 predicates (exhaustive), '
+            'triples for in_range/transitivity, 7 derived tables vs. '
+            'projections, idempotence and by-reference update of initglobals, '
+            'and the same battery after generated run-time extensions.',
+            'chronological order = order of the record list.',
+            'DESIGN.md §3 C08'),
+    'C17': ('exploration',
+            'differential run of the real hash against an independent '
+            'Java-BigInteger-hex implementation on searched digest shapes',
+            'Published vectors, digests searched for sign/leading-zero shapes, '
+            'argument permutations and 25k/250k random triples.',
+            'hashlib.sha1 trusted; formatting recomputed independently.',
+            'DESIGN.md §3 C17'),
+    'C18': ('exploration',
+            'runtime monitor: recording transport under the real cipher '
+            'wrappers; independent CFB8 shift register; raw-RSA unpadding',
+            'Ciphertext captured below the real wrappers must equal an '
+            'independent AES-128-CFB8 for all generated streams/partitions, '
+            'reference ciphertext must decrypt through the real wrappers, '
+            'directions interleaved; secrets 16 bytes and distinct; RSA '
+            'hand-over decided by pow(c,d,n) and own PKCS#1 v1.5 unpadding.',
+            'vf.ref.cfb8/aes validated by NIST/FIPS vectors in setup; '
+            'randomness quality not observable.',
+            'DESIGN.md §3 C18'),
+    'C20': ('exploration',
+            'reference-model monitors: tracker state compared with a replayed '
+            'model after every packet; algebraic-law oracles on generated '
+            'instances',
+            'Generated player-list/map/position histories applied to the real '
+            'trackers and to executable models; laws of records, vectors, '
+            'aliases and flag names on generated instances.',
+            'models in vf/checks/c20.py are the oracle.',
+            'DESIGN.md §3 C20'),
 }
 
 PENDING = {}
